@@ -42,8 +42,8 @@ Proof. apply (sweep_eq (fun x => N.land x 65472 =? 65152) (fun x => (65152 <=? x
 Lemma mask_ula x : x < 65536 -> (N.land x 65024 =? 64512) = ((64512 <=? x) && (x <=? 65023)).
 Proof. apply (sweep_eq (fun x => N.land x 65024 =? 64512) (fun x => (64512 <=? x) && (x <=? 65023)) 65536). vm_compute. reflexivity. Qed.
 
-Lemma mask_doc2 x : x < 65536 -> (N.land x 65520 =? 16368) = ((16368 <=? x) && (x <=? 16383)).
-Proof. apply (sweep_eq (fun x => N.land x 65520 =? 16368) (fun x => (16368 <=? x) && (x <=? 16383)) 65536). vm_compute. reflexivity. Qed.
+Lemma mask_doc2 x : x < 65536 -> (N.land x 61440 =? 0) = (x <? 4096).
+Proof. apply (sweep_eq (fun x => N.land x 61440 =? 0) (fun x => x <? 4096) 65536). vm_compute. reflexivity. Qed.
 
 Lemma mask_mc x : x < 65536 -> (N.land x 65280 =? 65280) = (65280 <=? x).
 Proof. apply (sweep_eq (fun x => N.land x 65280 =? 65280) (fun x => 65280 <=? x) 65536). vm_compute. reflexivity. Qed.
@@ -226,11 +226,11 @@ Proof.
     pose proof (hextet0_small ip Bi) as Hz. rewrite Hz in Hs.
     replace (ip =? 0) with false in Hs by lia. replace (ip =? 1) with false in Hs by lia.
     change (65152 <=? 0) with false in Hs. change (64512 <=? 0) with false in Hs.
-    change (0 =? 8193) with false in Hs. change (16368 <=? 0) with false in Hs. change (0 =? 24320) with false in Hs.
+    change (0 =? 8193) with false in Hs. change (0 =? 16383) with false in Hs. change (0 =? 24320) with false in Hs.
     cbn [andb orb] in Hs.
     rewrite Hs. reflexivity.
   - unfold is_multicast6, is_unicast_global_ipv6, is_multicast6, is_loopback6, is_unspecified6.
-    rewrite S0, S1. rewrite (mask_mc _ B0), (mask_ll _ B0), (mask_ula _ B0), (mask_doc2 _ B0).
+    rewrite S0, S1. rewrite (mask_mc _ B0), (mask_ll _ B0), (mask_ula _ B0), (mask_doc2 _ B1).
     set (s0 := hextet0 ip) in *. set (s1 := hextet1 ip) in *.
     destruct (65280 <=? s0) eqn:Emc.
     + (* multicast: none of the named classes *)
@@ -244,14 +244,14 @@ Proof.
       replace (s0 <=? 65215) with false in Hs by lia.
       replace (s0 <=? 65023) with false in Hs by lia.
       replace (s0 =? 8193) with false in Hs by lia.
-      replace (s0 <=? 16383) with false in Hs by lia.
+      replace (s0 =? 16383) with false in Hs by lia.
       replace (s0 =? 24320) with false in Hs by lia.
       rewrite !andb_false_r in Hs. cbn in Hs. discriminate.
     + cbn [negb andb orb]. apply negb_false_iff.
       rewrite !orb_false_r in Hs. cbn [orb].
       destruct (ip =? 0), (ip =? 1), ((65152 <=? s0) && (s0 <=? 65215)),
         ((64512 <=? s0) && (s0 <=? 65023)), ((s0 =? 8193) && (s1 =? 3512)),
-        ((16368 <=? s0) && (s0 <=? 16383)), (s0 =? 24320);
+        ((s0 =? 16383) && (s1 <? 4096)), (s0 =? 24320);
         cbn [orb] in *; try reflexivity; discriminate.
 Qed.
 
@@ -270,7 +270,7 @@ Proof.
   unfold is_global_ipv6. cbn [V6_MAPPED_CLASSIFIED_AS_V4 V6_SCOPE_ONLY_FOR_MULTICAST andb].
   rewrite to_mapped_same, (unmapped_big ip Hbig).
   unfold is_multicast6, is_unicast_global_ipv6, is_multicast6, is_loopback6, is_unspecified6.
-  rewrite S0, S1. rewrite (mask_mc _ B0), (mask_ll _ B0), (mask_ula _ B0), (mask_doc2 _ B0).
+  rewrite S0, S1. rewrite (mask_mc _ B0), (mask_ll _ B0), (mask_ula _ B0), (mask_doc2 _ B1).
   set (s0 := hextet0 ip) in *. set (s1 := hextet1 ip) in *.
   replace (65280 <=? s0) with false by lia. cbn [negb andb orb].
   replace (ip =? 1) with false by lia. replace (ip =? 0) with false by lia.
